@@ -14,6 +14,7 @@ pub mod h_api;
 pub mod h_count;
 pub mod h_trace;
 pub mod h_layout;
+pub mod h_tls;
 #[cfg(feature = "cleaners")]
 pub mod h_clean;
 #[cfg(feature = "auto-collect")]
